@@ -4,6 +4,7 @@ from __future__ import annotations
 import ast
 from typing import Dict, List, Optional, Set, Tuple
 
+from ..fold import MUTATORS
 from ..core import Ctx, assigned_names, dotted, norm, stmts_local, walk_local
 from ..effects import Effects
 from ..setorder import SetOrder
@@ -251,8 +252,49 @@ def run(ctx: Ctx):
                    "what the function reads, so a later call would get an earlier call's result", node=fs.node, mod=fs.mod)
             ctx.ob("R-C15-6", f"{q}/memo-pure", not eff.tw[q] and not fs.unknown_calls,
                    f"a memoised function must be pure (write-set {sorted(map(str, eff.tw[q]))[:3]}, unresolved calls {len(fs.unknown_calls)})", node=fs.node, mod=fs.mod)
-            ctx.ob("R-C15-6", f"{q}/memo-result", _immutable_ann(fs.node.returns),
-                   f"the cached result is shared by every caller, so it must be immutable (declared return type: {norm(fs.node.returns) if fs.node.returns else 'none'})",
+            res_ok = _immutable_ann(fs.node.returns)
+            how_res = f"declared return type: {norm(fs.node.returns) if fs.node.returns else 'none'}"
+            if not res_ok:
+                # a mutable result is still invisible if nobody who receives it can change it: every call site in the package binds the
+                # result (or its unpacked parts) to locals that are only read
+                bad_uses = []
+                n_sites = 0
+                for q2, fs2 in eff.funcs.items():
+                    for c in [x for x in walk_local(fs2.node) if isinstance(x, ast.Call) and (dotted(x.func) or "").split(".")[-1] == fs.node.name]:
+                        n_sites += 1
+                        par = getattr(c, "parent", None)
+                        names = []
+                        if isinstance(par, ast.Assign) and par.value is c:
+                            for t in par.targets:
+                                names += [e_.id for e_ in (t.elts if isinstance(t, (ast.Tuple, ast.List)) else [t]) if isinstance(e_, ast.Name)]
+                                if not all(isinstance(e_, ast.Name) for e_ in (t.elts if isinstance(t, (ast.Tuple, ast.List)) else [t])):
+                                    bad_uses.append(f"{q2}: stored into {norm(t)[:30]}")
+                        elif isinstance(par, (ast.Subscript, ast.Attribute, ast.For, ast.comprehension, ast.Compare)):
+                            pass  # read in place
+                        else:
+                            bad_uses.append(f"{q2}: {norm(par)[:40] if par is not None else '?'}")
+                        for nm in names:
+                            for u in [x for x in walk_local(fs2.node) if isinstance(x, ast.Name) and x.id == nm and isinstance(x.ctx, ast.Load)]:
+                                up = getattr(u, "parent", None)
+                                if isinstance(up, ast.Attribute) and isinstance(getattr(up, "parent", None), ast.Call) and up.parent.func is up:
+                                    if up.attr in MUTATORS:
+                                        bad_uses.append(f"{q2}: {nm}.{up.attr}()")
+                                    continue
+                                if isinstance(up, ast.Subscript) and up.value is u:
+                                    if isinstance(up.ctx, (ast.Store, ast.Del)):
+                                        bad_uses.append(f"{q2}: {nm}[..] = ..")
+                                    continue
+                                if isinstance(up, (ast.For, ast.comprehension)) and up.iter is u:
+                                    continue
+                                if isinstance(up, ast.Compare) or (isinstance(up, ast.Call) and dotted(up.func) in ("len", "sorted", "iter", "list", "tuple", "set", "frozenset", "dict", "min", "max", "any", "all", "enumerate", "zip", "bool")):
+                                    continue
+                                if isinstance(up, (ast.If, ast.While, ast.BoolOp, ast.UnaryOp, ast.IfExp)):
+                                    continue
+                                bad_uses.append(f"{q2}: {nm} escapes through {type(up).__name__}")
+                res_ok = n_sites > 0 and not bad_uses and fs.node.name.startswith("_")
+                how_res += f"; private, {n_sites} call site(s), read-only uses" if res_ok else f"; uses that could change or leak it: {bad_uses[:3]}"
+            ctx.ob("R-C15-6", f"{q}/memo-result", res_ok,
+                   f"the cached result is shared by every caller, so it must be immutable, or private and only ever read by its callers ({how_res})",
                    node=fs.node, mod=fs.mod)
     ctx.ob("R-C15-6", "package/memo-decorators", True, f"{n_memo} function(s) wrapped in functools.lru_cache/cache", node=None, mod=repo.mod("utils"), nontrivial=False)
 
